@@ -63,6 +63,12 @@ def plan(rng, tier):
     cfg = common.draw_cfg(rng, impls=("c",), p_stored=0.0,
                           p_default_sizes=0.06)
     cfg["stored"] = False
+    if rng.random() < 0.15:
+        # user subclasses: a tree class that names a leaf class of its own
+        # (`_bucket_type`), a trivial subclass of a Bucket / Set.  (A trivial
+        # subclass of a *Py TREE class cannot go through plain pickle in a
+        # process that also has the C extension: DESIGN section 10.)
+        cfg["dom"]["sub"] = "leaf" if is_tree(cfg["kind"]) else True
     if cfg["internal"] == 2 and rng.random() < 0.7:
         cfg["internal"] = rng.choice([3, 4])
     cfg["dom"]["nk"] = rng.choice([8, 12, 16, 24, 32])
@@ -139,6 +145,11 @@ def _cls_as(obj, impl):
     return getattr(mod, name + ("Py" if impl == "py" else ""))
 
 
+def _is_node(x):
+    return type(x).__module__.startswith(("BTrees.", "sim.subcls")) and \
+        hasattr(x, "__getstate__") and hasattr(x, "_p_oid")
+
+
 def convert(obj, impl, memo=None):
     """rebuild obj (a BTrees container) as implementation `impl` through
     __getstate__ / __setstate__ only, children and successors included"""
@@ -161,12 +172,29 @@ def convert(obj, impl, memo=None):
                 memo[("t", id(x))] = r
                 memo[("keep", id(x))] = x
             return r
-        if type(x).__module__.startswith("BTrees.") and \
-                hasattr(x, "__getstate__") and hasattr(x, "_p_oid"):
+        if _is_node(x):
             return convert(x, impl, memo)
         return x
     new.__setstate__(f(obj.__getstate__()))
     return new
+
+
+class _SubUnpickler(pickle.Unpickler):
+    """loads the user subclasses of sim/subcls.py as the variants of one
+    implementation (a deployment has only one of the two class sets)"""
+
+    def __init__(self, f, impl):
+        pickle.Unpickler.__init__(self, f)
+        self.impl = impl
+
+    def find_class(self, module, name):
+        if module == "sim.subcls":
+            from .. import subcls
+            stem = name[:-2] if name.endswith("Py") else name
+            return getattr(subcls, stem + ("Py" if self.impl == "py" else ""))
+        if self.impl == "py":
+            return _PyUnpickler.find_class(self, module, name)
+        return pickle.Unpickler.find_class(self, module, name)
 
 
 class _PyUnpickler(pickle.Unpickler):
@@ -240,8 +268,7 @@ def _snapshot(c):
             if isinstance(y, tuple):
                 for z in y:
                     f(z)
-            elif type(y).__module__.startswith("BTrees.") and \
-                    hasattr(y, "__getstate__") and hasattr(y, "_p_oid"):
+            elif _is_node(y):
                 walk(y)
         f(st)
     walk(c)
@@ -254,9 +281,43 @@ def _inline_nonroot_state(obj, st, root):
         isinstance(st, tuple) and len(st) == 1
 
 
+def _foreign_leaves(c):
+    """for a tree whose class names a leaf class of its own: the classes of
+    leaves that are NOT of that class, of interior nodes that are not of the
+    tree's class"""
+    want = type(c)._bucket_type
+    bad = set()
+    todo = [c]
+    while todo:
+        node = todo.pop()
+        st = node.__getstate__()
+        if st is None:
+            continue
+        if len(st) == 1:
+            # the embedded leaf has no identity in the state: ask the tree
+            fb = node._firstbucket
+            if type(fb) is not want:
+                bad.add(type(fb).__name__)
+            continue
+        for ch in st[0][0::2]:
+            if type(ch) is type(c):
+                todo.append(ch)
+            elif type(ch) is not want:
+                bad.add(type(ch).__name__)
+    return sorted(bad)
+
+
 def _sound(c, dom, cfg, impl, who):
     if not is_tree(cfg["kind"]):
         return
+    if cfg["dom"].get("sub") == "leaf":
+        bad = _foreign_leaves(c)
+        if bad:
+            raise Violation({"oracle": "leaf-class", "impl": impl,
+                             "kind": cfg["kind"]},
+                            "%s: a tree whose class names its own leaf class "
+                            "(_bucket_type = %s) has nodes of class %s" % (
+                                who, type(c)._bucket_type.__name__, bad))
     common.structural(c, dom, dict(cfg, impl=impl), None, None,
                       check_sizes=False, who=who)
 
@@ -416,6 +477,13 @@ def _reconstruct(src, route, target, proto):
         return convert(src, simpl), simpl
     if route == "state-other":
         return convert(src, target), target
+    if type(src).__module__ == "sim.subcls" and route in ("pickle",
+                                                          "pickle-other"):
+        # user subclasses pickle under their own names
+        data = pickle.dumps(src, proto)
+        if route == "pickle":
+            target = simpl
+        return _SubUnpickler(io.BytesIO(data), target).load(), target
     if route == "pickle":
         return pickle.loads(pickle.dumps(src, proto)), "c"
     if route == "pickle-other":
@@ -559,6 +627,21 @@ def _phase2(plan, dom, cfg, ctx):
                                         lb[:30]))
     for impl in ("c", "py"):
         _sound(reps[impl], dom, cfg, impl, "final/" + impl)
+    if cfg["dom"].get("sub"):
+        # user subclasses pickle under their own names (..Py for the Python
+        # ones): the states must be equal with the class names mapped
+        from .twin import _skeleton, strict_same
+        sa, sb = _skeleton(reps["c"]), _skeleton(reps["py"])
+        if not strict_same(sa, sb):
+            raise Violation(
+                {"oracle": "bytes-differ", "kind": kind, "fam": famc,
+                 "who": "transient", "what": "state", "sub": True},
+                "states of the replicas differ:\n C  %r\n Py %r" % (sa, sb))
+        for proto in range(6):
+            for impl in ("c", "py"):
+                pickle.dumps(reps[impl], proto)
+        ctx.ev("states-equal")
+        return
     for proto in range(6):
         pa = pickle.dumps(reps["c"], proto)
         pb = pickle.dumps(reps["py"], proto)
